@@ -74,6 +74,7 @@ LOOPS += [
 ]
 
 CONTOUR_FNS = {
+    "range": "pub fn range(self) -> Range<usize> { self.first()..self.last() + 1 }",
     "next": "pub fn next(self, index: usize) -> usize { if index >= self.last_ix as usize { self.first_ix as usize } else { index + 1 } }",
     "prev": "pub fn prev(self, index: usize) -> usize { if index <= self.first_ix as usize { self.last_ix as usize } else { index - 1 } }",
 }
@@ -201,6 +202,7 @@ class LoopGen:
         self.loop_names = {}
         self.fresh = 0
         self.link_bound = False
+        self.checked = []
         self.flag = spec.get("flag")
         self.generic = bool(spec.get("generic"))
         self.depth = 0
@@ -370,6 +372,36 @@ class LoopGen:
             if re.search(r"&\s*mut\s+" + n + r"\b", txt):
                 raise Unsupported(f"line {st['line']}: control variable `{n}` is borrowed mutably")
 
+    def data_sub_guards(self, st, names, pad):
+        """usize subtractions on control variables inside a statement that is otherwise dropped stay in the skeleton
+        as checked subtractions: `if a < b then .trap else`"""
+        def subs(text):
+            out = []
+            for n in sorted(names):
+                for m in re.finditer(r"\b" + n + r"\s*-\s*(\d+|[A-Za-z_]\w*)\b(?!\s*[.(\[])", text):
+                    rhs = m.group(1)
+                    if re.fullmatch(r"\d+", rhs):
+                        out.append(f"{camel(n)} < {rhs}")
+                    elif rhs in names:
+                        out.append(f"{camel(n)} < {camel(rhs)}")
+                    else:
+                        raise Unsupported(f"line {st['line']}: `{m.group(0)}`: control variable minus a data value")
+            return out
+        if st["k"] == "if":
+            def walk(x):
+                if x["k"] == "if":
+                    if subs(x["cond"]):
+                        return True
+                    return any(walk(y) for y in x["then"] + x["else"])
+                return bool(subs(x.get("text", "")))
+            if walk(st):
+                raise Unsupported(f"line {st['line']}: a dropped `if` subtracts from a control variable")
+            return []
+        gs = subs(st.get("text", ""))
+        for g in gs:
+            self.checked.append((st["line"], g))
+        return [f"{pad}if {g} then .trap else" for g in gs]
+
     def drop(self, st, names):
         if st["k"] == "if":
             self.dropped_conds[st["id"]] = (st["line"], st["cond"])
@@ -430,8 +462,9 @@ class LoopGen:
                     raise Unsupported(f"line {st['line']}: `let` rebinds the control variable `{m.group(1)}`")
                 names = names - {m.group(1)}       # shadowed by a data local
         if not self.has_effect(st, names):
+            guards = self.data_sub_guards(st, names, pad)
             self.drop(st, names)
-            return self.seq(rest, ind, names, slots)
+            return guards + self.seq(rest, ind, names, slots)
         if k == "break":
             if st.get("label") and not self.generic and self.depth > 1:
                 raise Unsupported(f"line {st['line']}: exit out of a nested loop needs a `generic` loop declaration")
@@ -512,7 +545,8 @@ ENTRY = {
                  "last_ix = point_ix; loop { point_ix = contour.prev(point_ix);"],
     "segMain": ["last_ix = point_ix; let mut on_edge = false; let mut passed = false; loop {"],
     "edgePts": ["let mut point_ix = segment.first(); let last_ix = segment.last(); loop {"],
-    "weak": ["let last_ix = points.len() - 1; let mut point_ix = first_touched_ix; let mut last_touched_ix; 'outer: loop {"],
+    "weak": ["let points = outline.points.get_mut(contour.range())?;",
+             "let last_ix = points.len() - 1; let mut point_ix = first_touched_ix; let mut last_touched_ix; 'outer: loop {"],
 }
 
 
@@ -644,6 +678,8 @@ def generate(read):
             header.append(f"      havoc  line {ln}: {text}  ↦  h {i} tick")
         for ln, text in sorted(set(g.dropped)):
             header.append(f"      dropped line {ln}: `{text}`")
+        for ln, gd in sorted(set(g.checked)):
+            header.append(f"      checked subtraction in the dropped statement of line {ln}: traps if {gd}")
         for name, text in g.defs:
             L_defs.append(f"/-- {spec['file']} fn {spec['func']}: one execution of the body of " +
                           ("the anchored loop" if name == spec["step"] else "a nested loop") + " -/")
